@@ -593,4 +593,38 @@ def compute_atomic_sets(atomic_sets: list[set[Feature]],
     dict(id="silent-relation-mandatory-tuple", props=["C03", "C14", "C15"], file=FM, expect="silent",
          old="        return self.card_min == 1 and self.card_max == 1 and len(self.children) == 1",
          new="        return (self.card_min, self.card_max, len(self.children)) == (1, 1, 1)"),
+    # ---- found by the systematic mutants (tools/automut.py): kept as permanent entries ------------------------------
+    dict(id="am-c17-ratio-wrong-way-round", props=["C17"], file=OPS + "fm_metrics.py", rule="C17-",
+         old="""                _abstract_compound_features, self._abstract_features.keys()
+            ),""",
+         new="""                self._abstract_features.keys(), _abstract_compound_features
+            ),"""),
+    dict(id="am-c17-metric-returns-none", props=["C17"], file=OPS + "fm_metrics.py", rule="C17-TOTAL",
+         old="""            parent="Concrete features",
+            level=2
+        )
+        return result""",
+         new="""            parent="Concrete features",
+            level=2
+        )
+        return None"""),
+    dict(id="am-c06-brace-garbage", props=["C06"], file=TR + "afm_writer.py", rule="C06-",
+         old='+ \' \'.join(features) + "}"', new='+ \' \'.join(features) + "}x"'),
+    dict(id="am-c06-one-element-domain", props=["C06"], file=TR + "afm_writer.py", rule="C06-FIELDS",
+         old="if len(domain.get_element_list()) > 0:", new="if len(domain.get_element_list()) > 1:"),
+    dict(id="am-c05-abstract-text", props=["C05"], file=TR + "json_reader.py", rule="C05-TYPE",
+         old="abstract.lower() == 'true'", new="abstract.lower() == 'truex'"),
+    dict(id="am-c05-nothing-written", props=["C05"], file=TR + "json_writer.py", rule="C05-",
+         old="                json.dump(json_object, file, indent=4)", new="                pass"),
+    dict(id="am-c01-isinstance-swapped", props=["C01"], file=TR + "uvl_writer.py", rule="C01-VALUES",
+         old="not isinstance(value[0], bool)", new="not isinstance(bool, value[0])"),
+    dict(id="am-c20-hash-none", props=["C20"], file=FM, rule="C20-",
+         old="""        return hash(
+            (self.parent, frozenset(self.children), self.card_min, self.card_max)
+        )""", new="        return None"),
+    dict(id="am-c10-open-mode", props=["C10", "C12"], file=TR + "pl_writer.py", rule="C1",
+         old="open(self.path, 'w', encoding='utf8')", new="open(self.path, 'wx', encoding='utf8')"),
+    dict(id="am-c11-attribute-scope", props=["C11"], file=TR + "clafer_writer.py", rule="C11-ONEENC",
+         old="    if feature.get_attributes():\n        result += f' : {ATTRIBUTED_FEATURE}'",
+         new="    if not feature.get_attributes():\n        result += f' : {ATTRIBUTED_FEATURE}'"),
 ]
